@@ -59,7 +59,7 @@ struct Opts {
 	bool oobAddresses = false; // addresses of non power-of-two memories may exceed the depth
 	bool triNaive = false;    // bidirectional pin: the simulation process releases the pin with 'Z' while the design drives it
 	bool setAtPowerOn = false; // first SETs are issued at power-on (time 0, outside the event loop) instead of after a short wait
-	unsigned extra = 0;       // bit mask of extra parts: 1 wide arithmetic, 2 memory, 4 tristate pin, 8 BLOCK (area with an entity inside), 16 shapes of fixed findings, 32 second edge domain (derived clock, same pin, other trigger edge), 64 ROM/RAM with partly defined power-on words
+	unsigned extra = 0;       // bit mask of extra parts: 1 wide arithmetic, 2 memory, 4 tristate pin, 8 BLOCK (area with an entity inside), 16 shapes of fixed findings, 32 second edge domain (derived clock, same pin, other trigger edge), 64 ROM/RAM with partly defined power-on words, 128 ROM/RAM with read latency 2..3 and per-stage enables
 	uint64_t extraSeed = 0;
 };
 
@@ -155,6 +155,39 @@ static void buildExtras(Extra &x, const Opts &o, const Clock &clock)
 		auto p0 = pinOut(rd0).setName("x_rrd0"); auto p1 = pinOut(rd1).setName("x_rrd1");
 		x.outPins.insert(x.outPins.end(), {p0.node(), p1.node()}); x.outWidths.insert(x.outWidths.end(), {dw, dw});
 		x.desc += std::string(" pmem=") + std::to_string(depth) + "x" + std::to_string(dw) + (rom ? "rom" : "ram") + (syncRead ? "s" : "a") + ":" + shape;
+	}
+	if (o.extra & 128) {
+		// generic ROM / RAM with 2..3 cycles of read latency whose read-latency registers sit under enable scopes chosen PER STAGE
+		// (different enables, the same enable, or none), enables driven independently by the stimulus; fully defined power-on content;
+		// the read data go straight to pin x_rrdl (exact read pin, see extra 64)
+		size_t aw = 2 + rng.below(3), dw = 2 + rng.below(9), latency = 2 + rng.below(2);
+		bool rom = rng.chance(1, 2);
+		Memory<UInt> mem(size_t(1) << aw, UInt(BitWidth(dw)));
+		mem.setType(MemType::MEDIUM, latency);
+		sim::DefaultBitVectorState st; st.resize((size_t(1) << aw) * dw);
+		for (size_t i = 0; i < st.size(); i++) { st.set(sim::DefaultConfig::DEFINED, i, true); st.set(sim::DefaultConfig::VALUE, i, rng.chance(1, 2)); }
+		mem.fillPowerOnState(st);
+		UInt ra = pinIn(BitWidth(aw)).setName("x_lra"); addIn(x, ra);
+		std::vector<Bit> ens;
+		for (size_t i = 0; i < 3; i++) { Bit e = pinIn().setName("x_len" + std::to_string(i)); addIn(x, e); ens.push_back(e); }
+		if (!rom) {
+			UInt wa = pinIn(BitWidth(aw)).setName("x_lwa"); UInt wdat = pinIn(BitWidth(dw)).setName("x_lwd"); Bit we = pinIn().setName("x_lwe");
+			addIn(x, wa); addIn(x, wdat); addIn(x, we);
+			IF (we) mem[wa] = wdat;
+		}
+		UInt rd = mem[ra];
+		std::string shape;
+		unsigned ramSel = (unsigned) rng.below(4);
+		for (size_t stg = 0; stg < latency; stg++) {
+			// a RAM's read-during-write hazard logic is retimed over these registers: gatery rejects stages with different enables there
+			// ("A retiming error occured"), so a RAM uses one enable (or none) for all stages, a ROM any mix
+			unsigned sel = rom ? (unsigned) rng.below(4) : ramSel; // 0: no enable, 1..3: enable pin sel-1
+			shape.push_back(sel ? char('0' + sel - 1) : '-');
+			std::optional<EnableScope> es; if (sel) es.emplace(ens[sel - 1]);
+			rd = reg(rd, {.allowRetimingBackward = true});
+		}
+		auto p = pinOut(rd).setName("x_rrdl"); x.outPins.push_back(p.node()); x.outWidths.push_back(dw);
+		x.desc += std::string(" lmem=") + std::to_string(aw) + "x" + std::to_string(dw) + (rom ? "rom" : "ram") + "L" + std::to_string(latency) + ":" + shape;
 	}
 	if (o.extra & 8) { // a plain area that contains an entity and logic of its own: exported as a BLOCK with local signals
 		size_t w = 1 + rng.below(6);
@@ -382,6 +415,7 @@ static bool runOne(uint64_t k, const vh::Recipe &recipe, const Opts &o, uint64_t
 	fs::remove_all(dir, ec);
 	bool ok = false;
 	std::string stage = "build";
+	Extra x;
 	try {
 		DesignScope design;
 		vh::Decoration deco; deco.seed = decoSeed; deco.areas = o.areas; deco.names = o.names;
@@ -393,7 +427,6 @@ static bool runOne(uint64_t k, const vh::Recipe &recipe, const Opts &o, uint64_t
 		attr.resetActive = o.resetLow ? hlim::RegisterAttributes::Active::LOW : hlim::RegisterAttributes::Active::HIGH;
 		if (auto *root = dynamic_cast<hlim::RootClock*>(clk)) root->setFrequency(hlim::ClockRational(kFrequencies[o.freq].first, kFrequencies[o.freq].second));
 		clk->setTriggerEvent(o.trigger == 0 ? hlim::Clock::TriggerEvent::RISING : o.trigger == 1 ? hlim::Clock::TriggerEvent::FALLING : hlim::Clock::TriggerEvent::RISING_AND_FALLING);
-		Extra x;
 		if (o.extra) buildExtras(x, o, *b.clock);
 		if (o.mode == 2) { // every second entity below the root starts a partition
 			size_t i = 0;
@@ -510,7 +543,7 @@ static bool runOne(uint64_t k, const vh::Recipe &recipe, const Opts &o, uint64_t
 	} catch (const std::exception &e) {
 		os.str("");
 		os << "# case " << k << " (reset=" << o.resetKind << " trig=" << o.trigger << " mode=" << o.mode << " areas=" << o.areas << " extra=" << o.extra
-		   << ") not exportable at stage " << stage << ": " << oneLine(e.what()) << '\n';
+		   << " xdesc" << x.desc << ") not exportable at stage " << stage << ": " << oneLine(e.what()) << '\n';
 		os << "skip " << k << ' ' << stage << '\n';
 	}
 	if (!getenv("C02_KEEP")) fs::remove_all(dir, ec);
@@ -546,7 +579,7 @@ int main(int argc, char **argv)
 		o.style = (unsigned) rng.below(3);
 		o.undefStim = (flags & 32) && rng.chance(1, 2);
 		o.setAtPowerOn = (flags & 64) && rng.chance(1, 2);
-		if (flags & 16) { if (rng.chance(1, 2)) o.extra = (unsigned) rng.below(128); }
+		if (flags & 16) { if (rng.chance(1, 2)) o.extra = (unsigned) rng.below(256); }
 		o.triNaive = (flags & 128) && rng.chance(1, 2);
 		if ((o.extra & 4) && o.triNaive) o.setAtPowerOn = false; // at most one of the two recorder findings per case
 		o.extraSeed = rng.next();
